@@ -119,10 +119,10 @@ func (manager *Manager) handler() {
 				}).Info("CLA Manager received Peer Disappeared, restarting CLA")
 
 				manager.Restart(cs.Sender)
-				manager.outChnl <- cs
+				manager.forward(cs)
 
 			default:
-				manager.outChnl <- cs
+				manager.forward(cs)
 			}
 
 		case <-activateTicker.C:
@@ -159,6 +159,15 @@ func (manager *Manager) isStopped() bool {
 }
 
 // Close the Manager and all supervised CLAs.
+// forward a ConvergenceStatus to this Manager's consumer. The consumer might be the one who is closing this Manager
+// right now and therefore not reading any more; in this case the ConvergenceStatus is dropped.
+func (manager *Manager) forward(cs ConvergenceStatus) {
+	select {
+	case manager.outChnl <- cs:
+	case <-manager.stopSyn:
+	}
+}
+
 func (manager *Manager) Close() error {
 	manager.stopFlagMutex.Lock()
 	manager.stopFlag = true
